@@ -65,17 +65,24 @@ def values(base):
         out = [(base, 0), (base, 1)]
         if len(inner) == 1:
             b = int(inner)
-            return out + [(f"{k}{(b + 1) % 3}", 0), (f"{FLIP[k]}{b}", 0), (b, 0)]
+            return out + [(f"{k}{(b + 1) % 3}", 0), (f"{FLIP[k]}{b}", 0), (0 if b == 5 else b, 0)]
         return out + [(k + FLIP[inner[0]] + inner[1:], 1),                        # the kind of an inner level differs
                       (k + FLIP[inner[0]] + inner[1:], 0),
                       (k + inner[:-1] + str((int(inner[-1]) + 1) % 3), 1),        # the simple type at the bottom differs
                       (FLIP[k] + inner, 1),                                       # the outermost kind differs
                       (k + inner[1:], 1)]                                         # one level missing
     base = int(base)
+    if base == 5:     # NUMBER: INTEGER and REAL values are both of the base type; INTEGER(0) == REAL(0.0) is ONE element
+        return [(0, 0), (2, 0), (0, 1), (3, 0)]
     # the ill-typed value is one that python considers EQUAL to a value of the base type where such a type exists:
     # INTEGER(0) == REAL(0.0) == False; a membership test taken before the type check would let it through
     other = {0: 2, 1: 0, 2: 0, 3: 0, 4: 3}[base]
     return [(base, 0), (base, 1), (other, 0)]
+
+
+def good_tags(base):
+    """the type tags whose values are of the (simple) base type"""
+    return [0, 2] if str(base) == "5" else [base]
 
 
 NUMERIC = [0, 2, 3]        # INTEGER, REAL (whole numbers), BOOLEAN: python-equal across types for the same number
@@ -85,9 +92,9 @@ def cross_type_alphabet(d):
     """two values of the base type and every differently typed value python-equal to one of them (plus unrelated ones),
     offered to the mutator of the aggregate"""
     k, lo, hi, base = d[0], d[1], d[2], d[3]
-    offers = [(base, 0), (base, 1)]
-    offers += [(t, v) for t in NUMERIC if t != base for v in (0, 1)] + [(1, 0), (4, 0), (4, 1)]
-    offers = [o for o in dict.fromkeys(offers) if not (o[0] == base and o not in [(base, 0), (base, 1)])]
+    offers = [(t, v) for t in good_tags(base) for v in (0, 1)]
+    offers += [(t, v) for t in NUMERIC if t not in good_tags(base) for v in (0, 1)] + [(1, 0), (4, 0), (4, 1)]
+    offers = list(dict.fromkeys(offers))
     if k == "ARRAY":
         return [("set", i) + v for i in range(lo, hi + 1) for v in offers]
     if k == "LIST":
@@ -104,7 +111,7 @@ def alphabet(d, rich=True):
         top = 3 if hi is None else min(hi, 3)
         idx = list(range(0, top + 2))
     else:
-        third = [] if str(base) == "3" else [(base, 2)]           # BOOLEAN has two values only
+        third = [] if str(base) in ("3", "5") else [(base, 2)]    # BOOLEAN has two values only; NUMBER none of its own
         return [("add",) + v for v in vs + third]                   # a third value of the base type
     ops = [("set", i) + v for i in idx for v in vs]
     ops += [("get", i) for i in idx]
@@ -142,7 +149,7 @@ ILLEGAL = [("ARRAY", 2, 1, 0, 0, 0, 0), ("ARRAY", 1, None, 0, 0, 0, 0), ("ARRAY"
 def random_decl(rng):
     k = rng.choice(["ARRAY", "LIST", "LIST", "BAG", "SET"])
     r = rng.random()
-    base = rng.choice(DEEP) if r < 0.12 else rng.choice(NESTED) if r < 0.35 else rng.randrange(5)
+    base = rng.choice(DEEP) if r < 0.12 else rng.choice(NESTED + ["A5", "S5"]) if r < 0.35 else rng.randrange(6)
     if k == "ARRAY":
         lo = rng.choice([-3, -1, 0, 1, 1, 2, 5])
         hi = lo + rng.choice([0, 1, 2, 3, 5, 8])
@@ -167,9 +174,12 @@ class Cursor:
             if is_nested(base):
                 t = rng.choice(values(base)[2:])[0]
             else:
-                t = rng.choice([x for x in range(5) if x != int(base)])     # often python-equal to a member (same payload range)
+                t = rng.choice([x for x in range(5) if x not in good_tags(int(base))])   # often python-equal to a member
             return (t, payload(t))
-        return (base, payload(base))
+        if is_nested(base):
+            return (base, payload(base))
+        t = rng.choice(good_tags(int(base)))
+        return (t, payload(t))
 
     def op(self):
         rng, (k, lo, hi) = self.rng, self.d[:3]
@@ -543,14 +553,14 @@ def batches(ctx):
         yield "exhaustive-nested-3", nested(NESTED, 3)
         yield "exhaustive-nested-4", nested(NESTED[:2], 4, full=False)
     # values of another type that python considers equal to a member, offered to every mutator of every kind
-    ct_decls = [d for b in (0, 2, 3, 4, 1)
+    ct_decls = [d for b in (0, 2, 3, 4, 1, 5)
                 for d in array_decls([(1, 2)], b) + list_decls([(0, None), (0, 2)], b) + coll_decls([(0, None), (0, 1), (0, 2)], b)]
     for depth in ((1, 2) if quick else (1, 2, 3)):
         yield f"exhaustive-cross-type-equal-{depth}", ((d, list(seq) + QUERIES) for d in ct_decls
                                                       for seq in itertools.product(cross_type_alphabet(d), repeat=depth))
     # LOGICAL and BOOLEAN base types (Unknown, False/True) through the ordinary alphabets
     for depth in (1, 2, 3):
-        yield f"exhaustive-logical-boolean-{depth}", (h for b in (3, 4)
+        yield f"exhaustive-logical-boolean-number-{depth}", (h for b in (3, 4, 5)
                                                      for d in array_decls([(1, 2)], b) + list_decls([(0, None), (0, 2)], b) + coll_decls([(0, None), (0, 2)], b)
                                                      for h in exhaustive(d, depth))
     # the built-in functions of Builtin.py on every state reached by short histories
